@@ -526,12 +526,82 @@ def sibling_enum(res):
                     f"the analytic d(qfrc_actuator)/d(qvel) is scaled by the wrong control")
 
 
+def fd_order(res):
+    """R-FD-ORDER: a differencing routine D(out, a, b, h) computes (b - a)/h, so each call D(.., p, q, ..) made with two of the
+    caller's own input pointers states "p comes before q".  Within one dispatcher (forward / backward / centred branches on
+    which of x+ and x- exist) these statements must be consistent with one order x- < x < x+: a cycle means that some branch
+    differences in the opposite direction from its siblings, i.e. one of the schemes returns the derivative with the wrong
+    sign.  No names are interpreted: only the acyclicity of the before-relation."""
+    u = engine.unit(FD)
+    res.rule("R-FD-ORDER", "operand orders of the forward / backward / centred differences of one dispatcher are consistent", floor=2)
+    n = 0
+    for name, fn in sorted(u.funcs.items()):
+        if (fn.get("file") or u.tu) != u.tu:
+            continue
+        byt = {}
+        for p in cir.params(fn):
+            if (p.get("t") or "").startswith("const ") and "*" in (p.get("t") or ""):
+                byt.setdefault(p.get("t"), {})[p.get("id")] = p.get("n")
+        # the sample points: three or more input pointers of one type
+        ins = {}
+        for t_, d_ in byt.items():
+            if len(d_) >= 3:
+                ins.update(d_)
+        if len(ins) < 3:
+            continue
+        edges = {}
+        for c in cir.calls(fn):
+            callee = cir.callee(c)
+            if callee is None or callee == name:
+                continue
+            pos = []
+            for i, a in enumerate(cir.args(c)):
+                x = cir.strip(a)
+                if x is not None and x.get("k") == "DeclRefExpr" and (x.get("ref") or {}).get("id") in ins:
+                    pos.append((i, x["ref"]["id"]))
+            if len(pos) == 2 and pos[0][1] != pos[1][1]:
+                edges.setdefault(callee, []).append((pos[0][1], pos[1][1], c))
+        for callee, es in edges.items():
+            if len(es) < 3:
+                continue
+            n += 1
+            succ = {}
+            for a, b, _c in es:
+                succ.setdefault(a, set()).add(b)
+            # cycle detection on a tiny graph
+            cyc = None
+            for a, b, c in es:
+                seen, work = set(), [b]
+                while work:
+                    x = work.pop()
+                    if x == a:
+                        cyc = c
+                        break
+                    if x in seen:
+                        continue
+                    seen.add(x)
+                    work.extend(succ.get(x, ()))
+                if cyc is not None:
+                    break
+            key = f"{name}:{callee}"
+            if cyc is None:
+                res.ok("R-FD-ORDER", key, {"order": [f"{ins[a]} < {ins[b]}" for a, b, _c in es]})
+            else:
+                order = "; ".join(f"{callee}(.., {ins[a]}, {ins[b]}, ..)" for a, b, _c in es)
+                res.bad("R-FD-ORDER", key, FD, cyc.get("line"),
+                        f"{name} differences its inputs in contradictory directions ({order}): the branches do not agree on one order "
+                        f"of the sample points, so one scheme returns the derivative with the opposite sign of the others")
+    if n == 0:
+        raise AnalysisError(f"{FD}: no differencing dispatcher (three or more calls of one routine with pairs of input pointers) found")
+
+
 def run(res, tier):
     g = callgraph.build()
     res.rule("R-SAVE-RESTORE", "FD routines undo every perturbation of their input on all paths", floor=9)
     save_restore(res, g)
     res.rule("R-SIBLING-ENUM", "velocity-dependent gain/bias types of mj_fwdActuation are handled by mjd_actuator_vel", floor=6)
     sibling_enum(res)
+    fd_order(res)
     res.explanation = (
         "All-paths typestate (dirty input components, saved scalars/buffers/state vectors) over the mjd_* routines of "
         "engine_derivative_fd.c with the state components taken from the mjtState tables and the effect of stepping "
